@@ -63,8 +63,11 @@ TRestart ==
          ix == [p \in Plans |-> Line.idx[p]]     \* what the search index holds: the plan's status, or the one before its last write
      IN /\ \A p \in Plans : Rank(st[p]) <= Rank(store[p]) /\ ((store[p] \in Terminal /\ st[p] \in Terminal) => st[p] = store[p])
         /\ \A c \in Callers : call[c].op = "idle"
-        /\ store' = st /\ adone' = ad /\ idx' = IndexRepaired(st, ix)
-        /\ Boot(st, idx', Line.recovery, gen)
+        /\ LET ag == {p \in Plans : Line.aged[p]} IN     \* Running plans the new process finds too old: closed, not resumed
+             /\ ag \subseteq {p \in Plans : IndexRepaired(st, ix)[p] = "RU"} /\ (ag # {} => Line.recovery)
+             /\ store' = [p \in Plans |-> IF p \in ag THEN "FA" ELSE st[p]] /\ adone' = ad
+             /\ idx' = [p \in Plans |-> IF p \in ag THEN "FA" ELSE IndexRepaired(st, ix)[p]]
+             /\ Boot(st, IndexRepaired(st, ix), Line.recovery, ag, gen)
   /\ ev' = [ev |-> "XRestart"]
   /\ UNCHANGED <<old, closed, ncalls, crashes, Hist, panicked>>
 
